@@ -404,14 +404,14 @@ func c07MapKey(c *Ctx) {
 				}
 				c2, ok := in.(ssa.CallInstruction)
 				return ok && calleeID(c2.Common()) == "path/filepath.Join"
-			}, func(in ssa.Instruction) bool {
+			}, c.orWrapper("fileNameMap-update", func(in ssa.Instruction) bool {
 				mu, ok := in.(*ssa.MapUpdate)
 				if !ok {
 					return false
 				}
 				_, fld, okF := fieldOf(mu.Map)
 				return okF && fld == "fileNameMap"
-			}, func(from, to *ssa.BasicBlock) bool {
+			}), func(from, to *ssa.BasicBlock) bool {
 				_, nonNil := factNil(edgeFactsTo(from, to), ev)
 				return nonNil
 			})
